@@ -95,7 +95,9 @@ def build_functions(rnd, n, pools):
 
 def source(fns, fallback):
     """fallback: None | False (nonpayable __default__) | True (payable __default__)"""
-    out = ["event D:", "    pass", ""]
+    # __default__ observes dispatcher-related values (calldata length vs 4, the selector word, msg.value,
+    # msg.sender) and logs them: they must not be disturbed by whatever the dispatcher left behind
+    out = ["event D:", "    x: uint256", "    y: uint256", "    v: uint256", "    s: address", ""]
     for k, f in enumerate(fns):
         args = [f"a{i}: uint256" for i in range(f.pos)] + \
                [f"a{f.pos + j}: uint256 = {DEF_BASE + f.pos + j}" for j in range(f.kw)]
@@ -111,7 +113,12 @@ def source(fns, fallback):
         if fallback:
             out.append("@payable")
         out.append("def __default__():")
-        out.append("    log D()")
+        out.append("    x: uint256 = 0")
+        out.append("    y: uint256 = 0")
+        out.append("    if len(msg.data) >= 4:")
+        out.append("        x = 1")
+        out.append("        y = convert(convert(slice(msg.data, 0, 4), bytes4), uint256)")
+        out.append(f"    log D(x=x, y=y, v={'msg.value' if fallback else '0'}, s=msg.sender)")
     return "\n".join(out) + "\n"
 
 
@@ -177,10 +184,27 @@ def call_matrix(rnd, es, tier, n_buckets_hint=()):
                 add(x.to_bytes(4, "big"), mincds, values=(0,))
     for _ in range(40 if thorough else 12):
         add(rnd.randrange(2**32).to_bytes(4, "big"), rnd.choice([4, 36, 68, 100]))
-    add(b"\x00\x00\x00\x00", 4)
+    # every bucket index of every plausible bucket count (incl. empty buckets), 4- and 5-byte calldata;
+    # all-zero calldata of 0..5 bytes; 00 00 00 s 00 (corpus/fallback_selectors.vy shape)
+    for n in set(n_buckets_hint) | {1, 2, 3, 4, 5}:
+        for r in range(n):
+            add(r.to_bytes(4, "big"), 4)
+            add(r.to_bytes(4, "big"), 5, values=(0,))
+    for s in range(16):
+        add(bytes([0, 0, 0, s]), 5, values=(0,))
+    for ln in range(6):
+        add(b"\x00\x00\x00\x00", ln)
     add(b"\x00\x00\x00\x00", 36)
     add(b"\xff\xff\xff\xff", 36)
     return sorted(calls)
+
+
+def expected_default_log(data: bytes, value: int, payable_default: bool, sender: str):
+    """x = 1 iff len(calldata) >= 4; y = the selector word if x else 0; v = msg.value (0 if nonpayable); s = sender"""
+    x = 1 if len(data) >= 4 else 0
+    y = int.from_bytes(data[:4], "big") if x else 0
+    v = value if payable_default else 0
+    return x.to_bytes(32, "big") + y.to_bytes(32, "big") + v.to_bytes(32, "big") + bytes(12) + bytes.fromhex(sender[2:])
 
 
 def observe(res, fns):
@@ -188,7 +212,8 @@ def observe(res, fns):
     if not res.ok:
         return ("revert",)
     if len(res.logs) == 1 and res.out == b"":
-        return ("default",)
+        from vlib.evm import log_tuple
+        return ("default", log_tuple(res.logs[0])[2])
     if len(res.logs) == 0 and len(res.out) == 64:
         return ("enter", res.out)
     return ("other", res.out.hex(), len(res.logs))
